@@ -114,7 +114,7 @@ def run(
             cmd += ["-deadlock"]
         cmd += [module + ".tla"]
         e = dict(os.environ)
-        jo = f"-Xmx{heap} -XX:+UseParallelGC"
+        jo = f"-Xmx{heap} -XX:+UseParallelGC -Djava.io.tmpdir={wd}"      # TLC's own scratch directories vanish with wd
         if java_opts:
             jo += " " + java_opts
         e["JAVA_TOOL_OPTIONS"] = jo
